@@ -165,6 +165,20 @@ func EvalPred(p gen.Pred, e Env) (bool, error) {
 		}
 		in := c1 >= 0 && c2 <= 0
 		return in != t.Neg, nil
+	case gen.BetweenCols:
+		v, lo, hi := e.Row[t.Col], e.Row[t.Lo], e.Row[t.Hi]
+		if v == nil || lo == nil || hi == nil {
+			return false, fmt.Errorf("NULL operand outside the property's domain")
+		}
+		c1, err := CmpScalar(v, lo)
+		if err != nil {
+			return false, err
+		}
+		c2, err := CmpScalar(v, hi)
+		if err != nil {
+			return false, err
+		}
+		return (c1 >= 0 && c2 <= 0) != t.Neg, nil
 	case gen.Like:
 		s, ok := e.Row[t.Col].(string)
 		if !ok {
